@@ -176,24 +176,108 @@ fn parse_init(tok: &str) -> Option<(usize, Option<usize>)> {
     }
 }
 
-/// Judge a whole trace (`tui` answer) event by event.
-fn judge_trace(out: &mut Out, line: &str, init: &str, events: &[&str], answer: &str) {
-    let Some((n, sel)) = parse_init(init) else {
-        out.notes.push(format!("bad scenario: {line}"));
-        return;
+/// `Draw<m>` / `Draw<m>:<k>` -> (m, Some(k))
+fn parse_draw(tok: &str) -> Option<(usize, Option<usize>)> {
+    let rest = tok.strip_prefix("Draw")?;
+    match rest.split_once(':') {
+        Some((m, k)) => Some((m.parse().ok()?, Some(k.parse().ok()?))),
+        None => Some((rest.parse().ok()?, None)),
+    }
+}
+
+/// `Term<w>x<h>`
+fn parse_term(tok: &str) -> Option<(u32, u32)> {
+    let (w, h) = tok.strip_prefix("Term")?.split_once('x')?;
+    Some((w.parse().ok()?, h.parse().ok()?))
+}
+
+/// The property of one redraw (`Draw<m>`: the real `table::build_table` on a `w`x`h` TestBackend terminal after
+/// `m` aircraft were put into `state_vectors`), independent of the Lean model: no panic on a terminal that has
+/// at least one column; `items` holds at most `m` rows, exactly `m` when nothing is searched for; nothing but the
+/// selection changes; on a terminal that shows the table (>= 5 columns, >= 3 lines) a valid selection stays, a
+/// stale one comes back in range, none is invented.  Returns (rows, new state).
+fn judge_draw(out: &mut Out, line: &str, prev: &St, m: usize, (w, h): (u32, u32), ans: &str) -> Option<(usize, St)> {
+    if ans == "panic" {
+        if w >= 1 {
+            out.fail("draw-panic", line, &format!("build_table panicked drawing {m} aircraft on a {w}x{h} terminal, state {prev:?}"));
+        }
+        return None;
+    }
+    let parsed = ans.strip_prefix("rows=").and_then(|r| r.split_once(' ')).and_then(|(k, st)| Some((k.parse::<usize>().ok()?, parse_state(st)?)));
+    let Some((k, st)) = parsed else {
+        out.fail("driver-answer", line, &format!("unparsable redraw answer `{ans}`"));
+        return None;
     };
-    let mut st = init_state(sel);
-    let segs: Vec<&str> = if answer.is_empty() { vec![] } else { answer.split(" | ").collect() };
-    for (i, ev) in events.iter().enumerate() {
-        let Some(seg) = segs.get(i) else {
-            out.fail("driver-answer", line, &format!("trace ends after {} of {} events", segs.len(), events.len()));
-            return;
-        };
-        match judge(out, line, n, &st, ev, seg) {
-            Some(s2) => st = s2,
-            None => return,
+    if k > m || (prev.query.is_empty() && k != m) {
+        out.fail("draw-rows", line, &format!("{m} aircraft offered, query `{}`: {k} rows", prev.query));
+    }
+    let mut same = st.clone();
+    same.sel = prev.sel;
+    if &same != prev {
+        out.fail("draw-changed-state", line, &format!("redraw changed more than the selection: {prev:?} -> {st:?}"));
+    }
+    if w >= 5 && h >= 3 {
+        let ok = in_range(k, st.sel)
+            && match prev.sel {
+                None => st.sel.is_none(),
+                Some(i) if i < k => st.sel == Some(i),
+                Some(_) => true,
+            };
+        if !ok {
+            out.fail("draw-selection", line, &format!("{k} rows drawn on {w}x{h}: selection {:?} -> {:?}", prev.sel, st.sel));
         }
     }
+    Some((k, st))
+}
+
+/// Judge a whole trace (`tui` answer) step by step (events, `Draw<m>[:<k>]`, `Term<w>x<h>`).  Returns the
+/// scenario with every `Draw<m>` completed to `Draw<m>:<k>`, `k` = the row count the real `build_table` reported
+/// (the op line handed to the model, which does not model the search filter).
+fn judge_trace(out: &mut Out, line: &str, init: &str, steps: &[&str], answer: &str) -> Vec<String> {
+    let mut canon: Vec<String> = steps
+        .iter()
+        .map(|t| match parse_draw(t) {
+            Some((m, None)) => format!("Draw{m}:{m}"),
+            _ => t.to_string(),
+        })
+        .collect();
+    let Some((mut n, sel)) = parse_init(init) else {
+        out.notes.push(format!("bad scenario: {line}"));
+        return canon;
+    };
+    let mut st = init_state(sel);
+    let mut term = (100u32, 30u32);
+    let segs: Vec<&str> = if answer.is_empty() { vec![] } else { answer.split(" | ").collect() };
+    for (i, tok) in steps.iter().enumerate() {
+        let Some(seg) = segs.get(i) else {
+            out.fail("driver-answer", line, &format!("trace ends after {} of {} steps", segs.len(), steps.len()));
+            return canon;
+        };
+        if let Some((m, given)) = parse_draw(tok) {
+            match judge_draw(out, line, &st, m, term, seg) {
+                Some((k, s2)) => {
+                    if given.is_none() {
+                        canon[i] = format!("Draw{m}:{k}");
+                    }
+                    n = k;
+                    st = s2;
+                }
+                None => return canon,
+            }
+        } else if let Some(t) = parse_term(tok) {
+            term = t;
+            if parse_state(seg).as_ref() != Some(&st) {
+                out.fail("term-changed-state", line, &format!("`{tok}` changed the state: {st:?} -> {seg}"));
+                return canon;
+            }
+        } else {
+            match judge(out, line, n, &st, tok, seg) {
+                Some(s2) => st = s2,
+                None => return canon,
+            }
+        }
+    }
+    canon
 }
 
 /// Abstraction under which a state counts as "already explored": exact state, with the query
@@ -313,6 +397,87 @@ fn random_runs(out: &mut Out, jet: &mut Jet, rng: &mut Rng, count: usize) {
     }
 }
 
+/// Sessions with redraws: the real `build_table` + ratatui `Table::render` between events (driver steps
+/// `Draw<m>`, `Term<w>x<h>`), compared with the model's `drawOn` and judged by `judge_draw`.
+fn draw_runs(out: &mut Out, jet: &mut Jet, rng: &mut Rng, count: usize) {
+    let mut lines: Vec<String> = vec![];
+    // (1) every start state of a table of 0..3 rows (no selection, every valid one, stale ones up to 4), redrawn
+    //     with 0..4 rows on an ordinary terminal, on one too narrow and on one too short to show the table,
+    //     followed by every navigation key
+    for n in 0..=3usize {
+        let mut inits = vec![format!("{n}")];
+        inits.extend((0..=4usize).map(|s| format!("{n}:{s}")));
+        for init in &inits {
+            for m in 0..=4usize {
+                for term in ["", "Term4x30 ", "Term100x2 "] {
+                    for key in ["j", "k", "g", "Up", "Down", "Home"] {
+                        lines.push(format!("tui {init} {term}Draw{m} {key}"));
+                    }
+                }
+            }
+        }
+    }
+    // (2) every terminal size 0..8 x 0..8 (and the ordinary widths for the short heights): where the clamp is
+    //     skipped, and ratatui's Scrollbar panic on a terminal without columns
+    for w in (0..=8u32).chain([80, 100, 300]) {
+        for h in (0..=8u32).chain([24, 30, 100]) {
+            for m in [0usize, 1, 2] {
+                lines.push(format!("tui 3:2 Term{w}x{h} Draw{m} j"));
+                lines.push(format!("tui 0 Term{w}x{h} Draw{m} k"));
+            }
+        }
+    }
+    // (3) random sessions: events, redraws with a growing / shrinking / emptied table, resizes, searches
+    for _ in 0..count {
+        let n = rng.below(8) as usize;
+        let init = match rng.below(4) {
+            0 => format!("{n}"),
+            1 => format!("{n}:0"),
+            _ => format!("{n}:{}", rng.below(12)),
+        };
+        let maxlen = if rng.chance(1, 10) { 120 } else { 30 };
+        let len = 2 + rng.below(maxlen) as usize;
+        let mut rows = n as u64;
+        let mut steps = vec![];
+        for _ in 0..len {
+            match rng.below(100) {
+                0..=34 => {
+                    rows = match rng.below(6) {
+                        0 => 0,
+                        1 => rows.saturating_sub(1 + rng.below(3)),
+                        2 => rows + 1 + rng.below(3),
+                        3 => rows,
+                        4 => rng.below(4),
+                        _ => rng.below(60),
+                    };
+                    steps.push(format!("Draw{rows}"));
+                }
+                35..=40 => {
+                    let (w, h) = match rng.below(4) {
+                        0 => (1 + rng.below(8), rng.below(8)),
+                        1 => (20 + rng.below(280), rng.below(6)),
+                        _ => (20 + rng.below(280), 5 + rng.below(80)),
+                    };
+                    steps.push(format!("Term{w}x{h}"));
+                }
+                // digits and a-f match the dummy addresses 000000, 000001, ...: the search filter shrinks the table
+                41..=50 => steps.push(rng.pick(&["/", "0", "1", "2", "a", "0", "Enter", "Esc", "Backspace"]).to_string()),
+                _ => steps.push(random_event(rng)),
+            }
+        }
+        lines.push(format!("tui {init} {}", steps.join(" ")));
+    }
+    let answers = jet.batch(&lines);
+    for (line, ans) in lines.iter().zip(answers.iter()) {
+        let w: Vec<&str> = line.split(' ').collect();
+        let canon = judge_trace(out, line, w[1], &w[2..], ans);
+        out.case(&format!("tui {} {}", w[1], canon.join(" ")), ans);
+        out.stat("draw-run");
+        out.stat_n("draws", w[2..].iter().filter(|t| parse_draw(t).is_some()).count() as u64);
+        out.stat_n("draw-run-steps", (w.len() - 2) as u64);
+    }
+}
+
 pub fn one(out: &mut Out, line: &str) {
     let mut jet = Jet::new(&out.dir.clone());
     let w: Vec<&str> = line.split_whitespace().collect();
@@ -322,18 +487,24 @@ pub fn one(out: &mut Out, line: &str) {
     }
     let scenario = format!("tui {}", w[1..].join(" "));
     let ans = jet.batch(&[scenario.clone()]).pop().unwrap();
-    judge_trace(out, &scenario, w[1], &w[2..], &ans);
+    let canon = judge_trace(out, &scenario, w[1], &w[2..], &ans);
+    let op = format!("{} {} {}", w[0], w[1], canon.join(" "));
     if w[0] == "tuis" {
-        out.case(line, ans.split(" | ").last().unwrap_or(""));
+        out.case(op.trim_end(), ans.split(" | ").last().unwrap_or(""));
     } else {
-        out.case(line, &ans);
+        out.case(op.trim_end(), &ans);
     }
 }
 
 pub fn run(out: &mut Out, rng: &mut Rng, thorough: bool) {
     let mut jet = Jet::new(&out.dir.clone());
     // the scenarios of the defect this property found (known_findings.d/C17.json), every run
-    for l in ["tui 0:0 j", "tui 0:0 k", "tui 0:0 Up", "tui 0:0 Down", "tui 0 j j", "tui 0 k Down", "tui 0 / j Down Up"] {
+    // … and the redraw witnesses: a shrunk table (stale selection) is clamped by the redraw, an emptied one
+    // clears the selection, a terminal too small to show the table leaves the stale selection
+    for l in [
+        "tui 0:0 j", "tui 0:0 k", "tui 0:0 Up", "tui 0:0 Down", "tui 0 j j", "tui 0 k Down", "tui 0 / j Down Up",
+        "tui 3:7 Draw3 k", "tui 3:2 Draw0 j Draw2 k", "tui 3:2 Term4x30 Draw1 k", "tui 3:2 Term100x2 Draw1 Term100x3 Draw1",
+    ] {
         one(out, l);
     }
     // exhaustive BFS for n = 0..3 over the 21-symbol alphabet
@@ -368,5 +539,6 @@ pub fn run(out: &mut Out, rng: &mut Rng, thorough: bool) {
         }
     }
     random_runs(out, &mut jet, rng, if thorough { 4000 } else { 400 });
+    draw_runs(out, &mut jet, rng, if thorough { 3000 } else { 300 });
     out.notes.push(format!("driver scenarios executed by the real update(): {}", jet.lines));
 }
